@@ -50,8 +50,8 @@ def report (w : World) (extra : List String) : World × List String :=
   let lines := s.caps.map capLine ++ extra ++
     [s!"out={hex s.out}",
      s!"st bufp={s.bufp} argc={s.argc} argv={offs s.argv} ring={s.ring.length} mem={hex (trimZeros s.mem)}"]
-    ++ (if s.fault then ["!! MODEL-FAULT"] else [])
-  ({ w with s := { s with caps := [], out := [], wlog := [] } }, lines)
+    ++ (if s.fault then ["!! MODEL-FAULT"] else []) ++ (if s.stuck then ["!! MODEL-STUCK"] else [])
+  ({ w with s := { s with caps := [], out := [], wlog := [], lines := [] } }, lines)
 
 def tableLine (t : Table) : String :=
   ",".intercalate (t.filterMap fun e => e.map fun c => match c.name with | some n => hex n | none => "-")
